@@ -816,9 +816,10 @@ def partition_by_sum(array, parts):
     # part has ideal sum, the last element (i - 1) will be included. Otherwise,
     # we would never have ideal sums.
     indices = np.searchsorted(cumulative_sum, ideal_cumsum, side="right")
-    # Check for repeated split points, which indicates that there is no way to
-    # split the array.
-    if np.unique(indices).size != indices.size:
+    # Check for repeated split points or a split point at the very start (an
+    # empty first part), which indicates that there is no way to split the
+    # array.
+    if np.unique(indices).size != indices.size or np.any(indices == 0):
         raise ValueError(
             "Could not find partition points to split the array into {} parts "
             "of equal sum.".format(parts)
